@@ -17,11 +17,11 @@ var storageOrder = map[string][]string{
 }
 
 type ObjPlan struct {
-	T         int   // t-wise strength
-	W         int   // storage window width
-	WCap      int   // max states per window sweep (window shrinks until it fits)
-	Rotations int   // presence sweep value rotations
-	FullV2    bool  // enumerate all 139,968,000 v2 objects
+	T         int  // t-wise strength
+	W         int  // storage window width
+	WCap      int  // max states per window sweep (window shrinks until it fits)
+	Rotations int  // presence sweep value rotations
+	FullV2    bool // enumerate all 139,968,000 v2 objects
 	Preds     Pred
 }
 
